@@ -77,7 +77,7 @@ class OldApiScenario:
                 self.style_args["compress"] = ch.pick("kcv", (0, 9)) if not big_payload else 0
         elif self.style == "iterm2":
             if ch.bool("imethod", 0.6):
-                self.style_args["method"] = ch.pick("im", ("lines", "whole"))
+                self.style_args["method"] = ch.pick("im", ("lines", "whole", "anim"))
             if ch.bool("imix", 0.3):
                 self.style_args["mix"] = True
             if ch.bool("ic", 0.3):
@@ -195,6 +195,7 @@ class OldApiScenario:
         sa = self.style_args
         st = ""
         if "method" in sa:
+            # documented: in an animation the ANIM method falls back to WHOLE frames
             st += sa["method"][0].upper()
         if "z_index" in sa:
             st += "z%d" % sa["z_index"]
@@ -209,13 +210,26 @@ class OldApiScenario:
         cells start as the pre-call screen shifted by ``scroll``."""
         img = self.image
         pos = img.tell()
-        if self.animated_src:
-            img.seek(frame)
-        try:
-            render = format(img, self.spec())
-        finally:
-            if self.animated_src:
+        if self.animation and self.style_args.get("method") == "anim":
+            # documented: in an animation the ANIM method falls back to WHOLE frames - at the
+            # image's full resolution, so the payload differs from a '+W' render; the frame as
+            # the image iterator renders it is the reference (content is not C06's business)
+            from term_image.image import ImageIterator
+            it = ImageIterator(img, 1, self.spec(), False)
+            try:
+                for _ in range(frame + 1):
+                    render = next(it)
+            finally:
+                it.close()
                 img.seek(pos)
+        else:
+            if self.animated_src:
+                img.seek(frame)
+            try:
+                render = format(img, self.spec())
+            finally:
+                if self.animated_src:
+                    img.seek(pos)
         vt = self.w.vt
         sv = VTerm(vt.rows, vt.cols, vt.profile, vt.cell_px, prefill=False)
         for r in range(vt.rows):
